@@ -4,7 +4,7 @@ PROP = dict(
     extract_file="Extract/ExC15.v", extract_module="c15_model", driver_files=["drv_c15.ml"],
     go_tags=["c15", "vframing"], const_groups=[],
     trusted_base=COMMON_TB,
-    rule="seeded generator: lists of 0..64 items with lengths on the varint boundary grid (0,1,127,128,16383,16384,2^21-1..), their encodings, truncations at random cut points, mutated encodings (bit flip, extension, truncation, forced continuation bit, over-long varint), varint-heavy and plain random byte strings, fixed boundary corpus; one case = one line (kind, input, implementation observable); non-trivial = input is not the empty string/list; distinct by sha1 of the line",
+    rule="seeded generator: lists of 0..64 items with lengths on the varint boundary grid (0,1,127,128,16383,16384,2^21-1..), their encodings, truncations at random cut points, mutated encodings (bit flip, extension, truncation, forced continuation bit, over-long varint), varint-heavy and plain random byte strings, fixed boundary corpus; the consumer handleOfferedContents with the exact / wrong key counts and good streams followed by malformed tails or surplus items; one case = one line (kind, input, implementation observable); non-trivial = input is not the empty string/list; distinct by sha1 of the line",
     nontrivial=lambda l: not (l.split(" | ")[0].split(" ")[-1] in ("-", ".")),
     modelled=["tetratelabs/wabin leb128 EncodeUint32/DecodeUint32 re-implemented in Gallina (validated by the same correspondence run)"],
     assumptions=["items shorter than 2^32 bytes (uint32(len) wraps otherwise; stated as hypothesis `short`)",
